@@ -256,11 +256,9 @@ func runReplay(path string) int {
 		return 2
 	}
 	fmt.Printf("replaying %s: %s\n", path, rf.Violation.String())
-	if rf.Engine == "store" {
-		if os.Getenv("VERIF_REPLAY_CHILD") == "1" {
-			return props.ReplayStore(rf)
-		}
-		// in a child process: the violation may be a fatal error of the runtime
+	if os.Getenv("VERIF_REPLAY_CHILD") != "1" {
+		// in a child process: the violation may be a fatal error of the runtime (a crash
+		// in the code under test that recover cannot catch)
 		cmd := exec.Command(os.Args[0], "replay", path)
 		cmd.Env = append(os.Environ(), "VERIF_REPLAY_CHILD=1")
 		var eb headBuffer
@@ -279,12 +277,15 @@ func runReplay(path string) int {
 				if j := strings.IndexByte(line, '\n'); j > 0 {
 					line = line[:j]
 				}
-				fmt.Printf("VIOLATION property=%s replay=%s\n  reproduced: the decoding process died: %s\n", rf.Property, path, line)
+				fmt.Printf("VIOLATION property=%s replay=%s\n  reproduced: the process died: %s\n", rf.Property, path, line)
 				return 1
 			}
 		}
 		fmt.Fprintln(os.Stderr, "replay child failed:", err, tail(st, 2000))
 		return 2
+	}
+	if rf.Engine == "store" {
+		return props.ReplayStore(rf)
 	}
 	if rf.Engine == "echo" && rf.Echo != nil {
 		e := rf.Echo
